@@ -210,8 +210,11 @@ class Conv:
             if s is not None:
                 if s[0] == "pin":
                     return ("pin", self.const(dev_atom(s[1])), s[2] if len(s) > 2 else None)
-                if s[0] == "stack":
+                if s[0] in ("stack", "refid_stack"):
                     raise Outside("stack object used as a device")
+                if s[0] == "refid_dev":
+                    sc, q = self.var(e.id)
+                    return ("pin", self.node("name", sc=sc, name=q), s[1])
                 if s[0] in ("named", "named_m"):
                     s = s[:2] + (self.num(crc(s[2][1])),) + s[3:]
                 return s
@@ -233,6 +236,9 @@ class Conv:
         returns (read_kind, write_kind, operand node ids) or None"""
         if isinstance(e, ast.Subscript) and isinstance(e.value, ast.Name) and e.value.id == "stack" and self.var("stack")[0] == "g":
             return ("mem", "memwrite", [self.expr(e.slice)])
+        if isinstance(e, ast.Subscript) and isinstance(e.value, ast.Name) and (self.struct_of(e.value.id) or ("",))[0] == "refid_stack":
+            sc, q = self.var(e.value.id)
+            return ("get", "put", [self.node("name", sc=sc, name=q), self.expr(e.slice)])
         if isinstance(e, ast.Subscript) and isinstance(e.value, ast.Name) and (self.struct_of(e.value.id) or ("",))[0] == "stack":
             pin = self.struct_of(e.value.id)[1]
             if pin == "db":
@@ -451,7 +457,11 @@ class Conv:
                 raise Outside("multiple targets")
             t = s.targets[0]
             if isinstance(t, ast.Name):
-                if self.static_device(s.value) is not None or (self.mod, self.scope_name, t.id) in self.lists:
+                sd = self.static_device(s.value)
+                if sd is not None and sd[0].startswith("refid"):
+                    sc, q = self.var(t.id)
+                    return self.node("assign", sc=sc, name=q, ch=[self.expr(s.value.keywords[0].value)])
+                if sd is not None or (self.mod, self.scope_name, t.id) in self.lists:
                     return None  # structure / constant-list binding: handled statically
                 sc, q = self.var(t.id)
                 v = self.expr(s.value)
@@ -551,6 +561,8 @@ class Conv:
                     if key in self.structs and self.structs[key] != st:
                         raise Outside("device name bound twice")
                     self.structs[key] = st
+                    if st[0].startswith("refid") and scope != "":
+                        self.shapes.add("refid_object_made_in_function")
 
     def static_device(self, v):
         """the device object a right-hand side denotes, or None: Plural, Plural["name"], either with a batch method,
@@ -563,6 +575,10 @@ class Conv:
                 return ("pin", v.args[0].id, v.func.id)
             if v.func.id == "Stack" and not v.keywords:
                 return ("stack", v.args[0].id)
+        if isinstance(v, ast.Call) and isinstance(v.func, ast.Name) and not v.args and len(v.keywords) == 1 and v.keywords[0].arg == "ref_id" \
+                and (v.func.id in self.T.singular or v.func.id == "Stack"):
+            # an object addressed by a reference id: the id is evaluated where the object is made and kept in the name
+            return ("refid_stack",) if v.func.id == "Stack" else ("refid_dev", v.func.id)
         if isinstance(v, ast.Subscript) and isinstance(v.value, ast.Name) and v.value.id in self.T.plural \
                 and isinstance(v.slice, ast.Constant) and isinstance(v.slice.value, str):
             return ("named", crc(self.T.plural[v.value.id]), ("hashname", v.slice.value))
